@@ -178,6 +178,8 @@ type State struct {
 	steps       int
 	preempts    int
 	timersOn    bool
+	clock       *Term // symbolic clock (nil: timers are driven by SetTimers / FireTimers*)
+	clockVer    int
 	inSelect    bool // readiness is being evaluated for a case of a multi-case select
 	timerLimit  int64 // with timers on: only time.After channels with a constant duration <= timerLimit fire by themselves (0 = no limit)
 	prov        map[string][]Prov
@@ -488,7 +490,7 @@ func (e *Engine) runPath(entry *ssa.Function, dec []int) {
 	e.Res.PathEnds[end]++
 	e.Res.Steps += st.steps
 	e.Res.UnknownBranch += st.unknown
-	if end == "engine-error" || end == "unsupported" {
+	if end == "engine-error" || end == "unsupported" || end == "deadline" {
 		e.Res.Incomplete = append(e.Res.Incomplete, end+": "+msg)
 	}
 	if len(e.Res.Samples) < 6 {
@@ -573,6 +575,10 @@ func (st *State) assume(c *Term) {
 // choose picks one of n alternatives; cond(i) is the condition under which i applies
 // (nil cond => free choice, always feasible).
 func (st *State) choose(n int, cond func(i int) *Term) int {
+	// the wall-clock budget also ends paths that are under way (a path made of slow solver queries would otherwise run on)
+	if d := st.eng.Cfg.Deadline; !d.IsZero() && time.Now().After(d) {
+		st.fail("deadline", "wall-clock budget reached inside a path")
+	}
 	if st.pos < len(st.dec) {
 		i := st.dec[st.pos]
 		st.pos++
